@@ -79,6 +79,7 @@ class Template:
         self.unit = os.path.basename(path)[:-3]
         self.props = set()
         self.verus_args = []
+        self.exec = False
         self.rules = {}
         self.parts = []   # ('prelude', [lines], first_line_no) | ('item', Item)
         self._parse(open(path).read())
@@ -115,7 +116,10 @@ class Template:
         while i < len(lines):
             ln = lines[i]
             s = ln.strip()
-            if s.startswith("//@props "):
+            if s == "//@exec":
+                self.exec = True
+                cur.append(ln)
+            elif s.startswith("//@props "):
                 self.props |= set(s.split()[1].split(","))
                 cur.append(ln)
             elif s.startswith("//@verus "):
